@@ -1056,6 +1056,8 @@ impl Databases {
         let db_name = database.name.to_string();
         log::debug!("add_database {}", db_name);
         let mut dbs = self.lock_databases_for_update();
+        #[cfg(feature = "verif")]
+        let _no_yield = crate::verif::no_yield_section();
         match dbs.get(&database.name.to_string()) {
             None => {
                 let mut id_name_db_map = self.id_name_db_map.write().unwrap();
